@@ -301,6 +301,17 @@ pub fn gen_random(seed: u64, idx: u64, tier: Tier) -> Plan {
                 }
                 e.plan.expect = Expect::FrameworkErr { lo: 400, hi: 400, allow: vec![] };
             }
+            if r.chance(1, 10) {
+                // a large but legitimate request head (a fat cookie, a bearer
+                // token): still a well-formed request, answered like any other
+                let n = *r.pick(&[7_000usize, 9_000, 12_000, 20_000, 60_000]);
+                let n = r.usize_in(n / 2, n);
+                if let Some(at) = e.bytes.windows(2).position(|w| w == b"\r\n") {
+                    let mut line = b"\r\ncookie: session=".to_vec();
+                    line.extend(std::iter::repeat(b'a').take(n));
+                    e.bytes.splice(at..at, line);
+                }
+            }
             c.steps.push(Step::Send { data: Blob(e.bytes), completes: Some(j) });
             c.reqs.push(e.plan);
             pending += 1;
@@ -322,7 +333,9 @@ pub fn gen_random(seed: u64, idx: u64, tier: Tier) -> Plan {
         seed: mix(seed, idx),
         server: ServerPlan {
             mode,
-            body_limit: 65_536,
+            // (no clause of this property depends on the body limit; it is
+            // varied so that nothing silently depends on one configuration)
+            body_limit: *r.pick(&[1024usize, 1024, 4096, 65_536]),
             api: if versioned { ApiKind::ErrVersioned } else { ApiKind::Err },
             rt_override: None,
             tls,
